@@ -240,7 +240,7 @@ fn part_b(rep: &Report, tier: Tier) {
                 }
                 let _ = wire_label;
                 let want_crc = crc_ref(want_total, pt, &on_wire, &pd);
-                let mut d = do_decap(&mut rx, &buf[..n]);
+                let mut d = do_decap(&mut rx, &buf[..(n).min(buf.len())]);
                 acc.transitions += 1;
                 let mut guard = 0;
                 let mut last_pkt: Vec<u8> = vec![];
@@ -255,13 +255,13 @@ fn part_b(rep: &Report, tier: Tier) {
                     acc.calls += 1;
                     match o {
                         EncOut::Fragmented(n2, c2) => {
-                            d = do_decap(&mut rx, &b[..n2]);
+                            d = do_decap(&mut rx, &b[..(n2).min(b.len())]);
                             acc.transitions += 1;
                             ctx = c2;
                         }
                         EncOut::Completed(n2) => {
-                            last_pkt = b[..n2].to_vec();
-                            d = do_decap(&mut rx, &b[..n2]);
+                            last_pkt = b[..(n2).min(b.len())].to_vec();
+                            d = do_decap(&mut rx, &b[..(n2).min(b.len())]);
                             acc.transitions += 1;
                             break;
                         }
@@ -312,6 +312,12 @@ fn part_c(rep: &Report) {
         let resolved = prime.unwrap_or(first_label);
         for total_counts in [0usize, 3, 6] {
           for abandoned in ["none", "explicit-same-id", "reuse-same-id", "explicit-aliasing-id", "reuse-aliasing-id"] {
+           // what happens to the receiver's label memory between the first fragment and the rest of the train: what is
+           // recomputed at the end fragment must depend on the first fragment only, not on the memory at that moment
+           for between in ["nothing", "reset", "broadcast-packet", "other-label-packet"] {
+            if between != "nothing" && abandoned != "none" && abandoned != "reuse-same-id" {
+                continue;
+            }
             for crc_label in [vec![], L3A.bytes(), L6A.bytes()] {
                 let total = (x.len() + 2 + total_counts) as u16;
                 let crc = crc_ref(total, 0x0800, &crc_label, &x);
@@ -347,6 +353,17 @@ fn part_c(rep: &Report) {
                     last = do_decap(&mut rx, p);
                     if k == first_at {
                         first_accepted = matches!(last, DecapOut::Fragmented { .. });
+                        match between {
+                            "reset" => rx.reset_last_label(),
+                            "broadcast-packet" | "other-label-packet" => {
+                                let l2 = if between == "broadcast-packet" { Lbl::Bcast } else { L6B };
+                                if let DecapOut::Completed { buf, .. } = do_decap(&mut rx, &Desc::complete(l2, 0x86DD, &[0x7C]).print()) {
+                                    let _ = rx.provision_storage(vec![0u8; buf.len()].into_boxed_slice());
+                                }
+                                let _ = rec.take();
+                            }
+                            _ => {}
+                        }
                     }
                     if let DecapOut::Completed { buf, .. } = &last {
                         let _ = rx.provision_storage(vec![0u8; buf.len()].into_boxed_slice());
@@ -359,7 +376,7 @@ fn part_c(rep: &Report) {
                 let want_label: Vec<u8> = if first_label == Lbl::ReUse { vec![] } else { first_label.bytes() };
                 let conformant = total_counts == want_label.len() && crc_label == want_label;
                 acc.outcome(&format!("C:{}:{}", if conformant { "conformant" } else { "crafted" }, last.class()));
-                let wit = || json!({"abandoned_train_before": abandoned, "first_fragment_label": first_label.short(), "receiver_label_memory": prime.map(|l| l.short()), "total_length": total, "trailer_is_crc_over_label": hex(&crc_label), "packets": seq.iter().map(|p| hex(p)).collect::<Vec<_>>(), "outcome": last.brief()});
+                let wit = || json!({"label_memory_between_first_and_rest": between, "abandoned_train_before": abandoned, "first_fragment_label": first_label.short(), "receiver_label_memory": prime.map(|l| l.short()), "total_length": total, "trailer_is_crc_over_label": hex(&crc_label), "packets": seq.iter().map(|p| hex(p)).collect::<Vec<_>>(), "outcome": last.brief()});
                 // a receiver may refuse the first fragment of a crafted train outright; what it then recomputes for
                 // the following fragments concerns whatever older train is open, not this one
                 let calls = if first_accepted || conformant { rec.take() } else { vec![] };
@@ -376,6 +393,7 @@ fn part_c(rep: &Report) {
                     rep.violation("C12|receiver|crafted-train-delivered", total_counts as u64, || (format!("a train whose total length / trailer do not correspond to the label as written is delivered: {}", last.brief()), wit()));
                 }
             }
+           }
           }
         }
     }
